@@ -12,7 +12,8 @@ CONTRACTS = ()
 ANCHORS = (
     "acryo.pipe._classes:ImageConverter.compose",
     "acryo.pipe._classes:ImageProvider.__add__",
-    "acryo.pipe._classes:_Pipeline.__rsub__",
+    "acryo.pipe._classes:ImageProvider.__rsub__",
+    "acryo.pipe._classes:ImageConverter.__rsub__",
     "acryo.pipe._classes:_Pipeline.__rtruediv__",
     "acryo.pipe._classes:_lt",
     "acryo.pipe._curry:provider_function",
@@ -20,7 +21,7 @@ ANCHORS = (
     "acryo.pipe._imread:_as_3_array",
     "acryo.pipe._masking:_get_radius_px",
 )
-REQUIRED_COUNTERS = ("anchor:ImageConverter.compose", "anchor:ImageProvider.__add__", "anchor:_Pipeline.__rsub__",
+REQUIRED_COUNTERS = ("anchor:ImageConverter.compose", "anchor:ImageProvider.__add__", "anchor:ImageProvider.__rsub__", "anchor:ImageConverter.__rsub__",
                      "anchor:_as_3_array", "anchor:_get_radius_px", "anchor:converter_function",
                      "anchor:provider_function")
 RULE = ("expr cases = random expression tree (depth <= 3 quick / 5 thorough) over provider leaves (from_array, "
@@ -371,6 +372,25 @@ def _law_case(case):
         case.check(close(pipe.converter_function(g3)(a, b=b)(x, scale), g3(x, scale, a, b=b)),
                    "converter_function(f)(*args)(img, scale) != f(img, scale, *args)", None)
         case.check(pipe.converter_function(g3).__name__ == "g3", "curried function lost its name", None)
+        # the shipped converters forward every keyword to the function they wrap
+        from scipy import ndimage as _ndi
+
+        cv_ = float(rng.uniform(0.5, 3.0))
+        sg_ = float(rng.uniform(0.8, 1.6)) * scale
+        for md_ in ("reflect", "constant", "nearest", "mirror", "wrap"):
+            got_ = np.asarray(pipe.gaussian_filter(sigma=sg_, mode=md_, cval=cv_)(x, scale))
+            want_ = _ndi.gaussian_filter(x, sg_ / scale, mode=md_, cval=cv_)
+            case.check(close(got_, want_, 1e-5), "pipe.gaussian_filter(sigma, mode, cval) != scipy gaussian_filter(sigma/scale, "
+                       "mode, cval)", None, mode=md_, cval=cv_)
+        flat_ = np.full(shape, cv_, np.float32)
+        case.check(close(pipe.gaussian_filter(sigma=sg_, mode="constant", cval=cv_)(flat_, scale), flat_, 1e-5),
+                   "pipe.gaussian_filter: a constant image padded with the same constant is not a fixed point", None)
+        shv_ = tuple(float(v) * scale for v in rng.uniform(-1.5, 1.5, 3))
+        for md_ in ("nearest", "constant", "reflect"):
+            got_ = np.asarray(pipe.shift(shv_, mode=md_, cval=cv_)(x, scale))
+            want_ = _ndi.shift(x, np.asarray(shv_) / scale, order=1, prefilter=False, mode=md_, cval=cv_)
+            case.check(close(got_, want_, 1e-5), "pipe.shift(shift, mode, cval) != scipy shift(shift/scale, mode, cval)", None,
+                       mode=md_, cval=cv_)
         try:
             pipe.provider_function(lambda s: 3.0)()(scale)
             case.check(False, "provider returning a non-array was accepted", None)
@@ -437,6 +457,33 @@ def _law_case(case):
                 r3 = pipe.from_array(img, original_scale=o2 * lam2, tol=tol2)(s2 * lam2)
                 case.check(r3.shape == r2.shape and close(r3, r2, 1e-5), "from_array: result changes when both scales "
                            "are expressed in another unit", None, original=o2, scale=s2, factor=lam2)
+        # from_atoms: weighted histogram of (atoms - centre) / scale in a cube of ceil(2 r_max) voxels
+        na_ = int(rng.integers(3, 9))
+        for explicit in (False, True):
+            for _try in range(20):
+                atoms = rng.uniform(-4, 4, size=(na_, 3)) + rng.uniform(-20, 20, 3)
+                cen = (atoms.mean(0) + rng.uniform(-1, 1, 3)) if explicit else atoms.mean(0)
+                co = (atoms - cen) / scale
+                size_ = int(np.ceil(np.sqrt((co ** 2).sum(1)).max() * 2))
+                fi = co + size_ / 2
+                if size_ >= 2 and np.all(np.abs(fi - np.round(fi)) > 0.02) and np.all((fi > 0.02) & (fi < size_ - 0.02)):
+                    break
+            else:
+                continue
+            wts = 2.0 ** np.arange(na_)
+            want_h = np.zeros((size_,) * 3)
+            for f_, w_ in zip(np.floor(fi).astype(int), wts):
+                want_h[tuple(f_)] += w_
+            got_h = np.asarray(pipe.from_atoms(atoms, weights=wts, center=tuple(cen) if explicit else None)(scale))
+            case.check(got_h.shape == want_h.shape and np.allclose(got_h, want_h), "from_atoms is not the weighted histogram of "
+                       "(atoms - centre)/scale", None, explicit_center=explicit, scale=scale, got=got_h.shape, want=want_h.shape)
+            got_l = np.asarray(pipe.from_atoms(atoms * lam, weights=wts, center=tuple(cen * lam) if explicit else None)(scale * lam))
+            case.check(got_l.shape == got_h.shape and np.allclose(got_l, got_h), "from_atoms changes when atoms, centre and scale "
+                       "are expressed in another unit", None, explicit_center=explicit, factor=lam)
+            if not explicit:
+                got_m = np.asarray(pipe.from_atoms(atoms, weights=wts, center=tuple(atoms.mean(0)))(scale))
+                case.check(got_m.shape == got_h.shape and np.allclose(got_m, got_h), "from_atoms(center=None) != "
+                           "from_atoms(center=mean(atoms))", None, scale=scale)
         outs = pipe.from_arrays([img, img * 2], original_scale=o)(scale)
         case.check(isinstance(outs, list) and len(outs) == 2 and close(outs[0], out) and close(outs[1], out * 2, 1e-4),
                    "from_arrays != [from_array(img) for img in imgs]", None)
@@ -484,11 +531,45 @@ def _law_case(case):
                    "gaussian_smooth is not extensive with values in [0,1]", None)
         case.check(np.array_equal(np.asarray(pipe.dilation(0.3 * scale)(obj, scale)), obj),
                    "dilation with a sub-pixel radius changed the mask", None)
+        # objects that touch the faces of the box (a filament through the box, a slab, a full box)
+        ax_ = int(rng.integers(0, 3))
+        rr = np.sqrt(sum(zz[a] ** 2 for a in range(3) if a != ax_))
+        for nm_, ob in (("filament", rr <= float(rng.uniform(3, 5))), ("slab", np.abs(zz[ax_] - 1) <= 2.5),
+                        ("full", np.ones(big, bool)), ("corner", (zz[0] < -4) & (zz[1] > 3))):
+            mech_ = "closing.not-extensive-at-faces"
+            case.check(bool(np.all(np.asarray(pipe.closing(r)(ob, scale)) >= ob)),
+                       "closing is not extensive for an object touching the box faces", mech_, object=nm_)
+            case.check(bool(np.all(np.asarray(pipe.dilation(r)(ob, scale)) >= ob)),
+                       "dilation is not extensive for an object touching the box faces", None, object=nm_)
+            case.check(bool(np.all(np.asarray(pipe.closing(-r)(ob, scale)) <= ob)) and
+                       bool(np.all(np.asarray(pipe.dilation(-r)(ob, scale)) <= ob)),
+                       "opening/erosion is not anti-extensive for an object touching the box faces", None, object=nm_)
+            sm_ = np.asarray(pipe.gaussian_smooth(r)(ob, scale))
+            case.check(bool(np.all(sm_ >= ob - 1e-6)) and float(sm_.min()) >= 0 and float(sm_.max()) <= 1 + 1e-6,
+                       "gaussian_smooth is not extensive with values in [0,1] for an object touching the box faces", None,
+                       object=nm_)
         so = np.asarray(pipe.soft_otsu(r, r)(obj.astype(np.float32) * 3 + 0.1 * rng.normal(size=big).astype(np.float32), scale))
         case.check(float(so.min()) >= 0 and float(so.max()) <= 1 + 1e-6, "soft_otsu outside [0,1]", None)
         th = np.asarray(pipe.threshold_otsu()(obj.astype(np.float32) * 3 + 0.1 * rng.normal(size=big).astype(np.float32), scale))
         case.check(th.dtype == bool and float(np.mean(th != obj)) <= 2e-3, "threshold_otsu does not separate a bimodal image", None,
                    mismatch=int(np.sum(th != obj)))
+        # scalars combine voxel-wise with boolean-valued pipelines as they do with the boolean arrays (mask inversion)
+        bimg = obj.astype(np.float32) * 3 + 0.1 * rng.normal(size=big).astype(np.float32)
+        tb = np.asarray(pipe.threshold_otsu()(bimg, scale))
+        for nm_, pl_, want_ in (("1 - mask", lambda: 1 - pipe.threshold_otsu(), lambda: 1 - tb),
+                                ("2 * mask", lambda: 2 * pipe.threshold_otsu(), lambda: 2 * tb),
+                                ("mask * 0.5", lambda: pipe.threshold_otsu() * 0.5, lambda: tb * 0.5),
+                                ("1.5 + mask", lambda: 1.5 + pipe.threshold_otsu(), lambda: 1.5 + tb),
+                                ("1 - dilated mask", lambda: 1 - (pipe.dilation(r) @ pipe.threshold_otsu()),
+                                 lambda: 1 - np.asarray(pipe.dilation(r)(tb, scale)))):
+            try:
+                got_ = np.asarray(pl_()(bimg, scale))
+            except TypeError as e:
+                case.check(False, f"{nm_}: scalar arithmetic with a boolean-valued pipeline raised", "pipe.rsub-bool",
+                           error=str(e)[:120])
+                continue
+            case.check(np.array_equal(got_.astype(float), np.asarray(want_()).astype(float)),
+                       f"{nm_}: scalar arithmetic with a boolean-valued pipeline is not voxel-wise", None)
     elif law == "loader":
         from acryo import SubtomogramLoader, Molecules
 
